@@ -265,16 +265,33 @@ pub fn check_project(types: &[TypeM], mode: &str, stats: &mut Stats) -> Vec<Fail
         });
         match obs {
             ObsNames::Bad(kind, detail) => {
-                // attribute the failure to the type: tags are the union of its items' features
-                let mut tags: std::collections::BTreeSet<String> = Default::default();
-                for it in &t.items {
-                    for tg in item_tags(t, it, mode) {
-                        if !tg.starts_with("ident=") {
-                            tags.insert(tg);
+                // attribute a syntax error to the member on whose line it occurred, if we can tell
+                let line = detail.split(" in line: ").nth(1).map(|l| l.split(" ⟸ ").next().unwrap_or("").trim().to_string()).unwrap_or_default();
+                let culprit = t.items.iter().filter(|it| !it.skipped || kind == "unparsable").find(|it| {
+                    let wn = wire_name(&it.ident, t.is_enum, it.rename.as_deref(), t.rule.as_deref());
+                    let raw_applied = if t.is_enum { it.ident.clone() } else { it.ident.clone() };
+                    !line.is_empty()
+                        && it.ident != "keep"
+                        && it.ident != "Keep"
+                        && (line.starts_with(&wn) || line.starts_with(&format!("\"{}", wn)) || line.contains(&raw_applied) || it.rename.as_deref().map_or(false, |r| !r.is_empty() && line.contains(r.split(['"', '\\']).next().unwrap_or(r))))
+                });
+                let exp_s = format!("{:?}", exp.iter().map(|(n, _)| n).collect::<Vec<_>>());
+                match culprit {
+                    Some(it) if t.items.len() <= 2 || kind == "unparsable" => {
+                        fails.push(Failure::new(kind).tags(item_tags(t, it, mode)).observed(detail).expected(exp_s).case(case(json!({"item": it.ident}))));
+                    }
+                    _ => {
+                        let mut tags: std::collections::BTreeSet<String> = Default::default();
+                        for it in &t.items {
+                            for tg in item_tags(t, it, mode) {
+                                if !tg.starts_with("ident=") {
+                                    tags.insert(tg);
+                                }
+                            }
                         }
+                        fails.push(Failure::new(kind).tags(tags).tag("whole_type").observed(detail).expected(exp_s).case(case(Value::Null)));
                     }
                 }
-                fails.push(Failure::new(kind).tags(tags).tag("whole_type").observed(detail).expected(format!("{:?}", exp.iter().map(|(n, _)| n).collect::<Vec<_>>())).case(case(Value::Null)));
             }
             ObsNames::Names(obs_names, src_text) => {
                 let exp_names: Vec<String> = exp.iter().map(|(n, _)| n.clone()).collect();
